@@ -93,7 +93,7 @@ func xmlUnmarshalElement(el *etree.Element, obj interface{}) error {
 	// Serialize in canonical mode so that characters such as carriage returns are written as
 	// character references and survive the re-parse below.
 	doc.WriteSettings = etree.WriteSettings{CanonicalText: true, CanonicalAttrVal: true}
-	doc.SetRoot(el)
+	doc.SetRoot(withNeutralNamespacePrefixes(el))
 	data, err := doc.WriteToBytes()
 	if err != nil {
 		return err
@@ -104,6 +104,54 @@ func xmlUnmarshalElement(el *etree.Element, obj interface{}) error {
 		return err
 	}
 	return nil
+}
+
+// withNeutralNamespacePrefixes returns a copy of el in which every declared namespace prefix
+// has been renamed to a generated one (ns1, ns2, ...), consistently within the scope of its
+// declaration. encoding/xml matches attribute fields by local name only, so a declaration such
+// as xmlns:ID="..." would otherwise be decoded as the ID attribute. Such declarations are not
+// covered by an exclusive-c14n signature and can be added to a signed message (and "used" by
+// an element placed inside the signature's own KeyInfo, which no digest covers either).
+func withNeutralNamespacePrefixes(el *etree.Element) *etree.Element {
+	renamed := el.Copy()
+	count := 0
+
+	var walk func(e *etree.Element, scope map[string]string)
+	walk = func(e *etree.Element, scope map[string]string) {
+		declared := false
+		for i, a := range e.Attr {
+			if a.Space != "xmlns" {
+				continue
+			}
+			if !declared {
+				// declarations on this element open a new scope
+				inner := make(map[string]string, len(scope)+1)
+				for k, v := range scope {
+					inner[k] = v
+				}
+				scope, declared = inner, true
+			}
+			count++
+			scope[a.Key] = fmt.Sprintf("ns%d", count)
+			e.Attr[i].Key = scope[a.Key]
+		}
+		if p, ok := scope[e.Space]; ok {
+			e.Space = p
+		}
+		for i, a := range e.Attr {
+			if a.Space == "xmlns" {
+				continue
+			}
+			if p, ok := scope[a.Space]; ok {
+				e.Attr[i].Space = p
+			}
+		}
+		for _, child := range e.ChildElements() {
+			walk(child, scope)
+		}
+	}
+	walk(renamed, map[string]string{})
+	return renamed
 }
 
 // xmlUnmarshalUnverified decodes raw XML the same way the validating entry points decode an
